@@ -14,6 +14,7 @@ var vC10StoreQueries = []string{
 	"isEmpty(roles)", "anyOf(roles) = \"a\"", "count(reports) = 0", "boss.s = \"x\"", "tags.k = 1",
 	"isEmpty(from reports where s = \"x\")", "true sort by s skip 2", "s icontains \"x\" sort by s",
 	"true sort by i", "true sort by s desc, i", "true sort by boss", "true sort by tags.k",
+	"true sort by s limit 0", "true sort by i desc skip 1 limit 0", "true limit 0", "true sort by s skip -1 limit 1",
 	"count(from reports where true) = 0", "isEmpty(from roles where true)", "not isEmpty(from reports where boss = null)",
 }
 
@@ -26,13 +27,24 @@ func init() {
 // filled and emptied again, and on entities all of whose fields are null.
 func VerifC10_QueriesOnEmptyAndNullData() {
 	q := vC10StoreQueries[verifrt.Choose("query", len(vC10StoreQueries))]
-	state := verifrt.Choose("state", 4) // 0 never written, 1 filled then emptied, 2 one entity with all fields null, 3 three such entities (sorting compares null with null)
+	state := verifrt.Choose("state", 5) // 0 never written, 1 filled then emptied, 2 one entity with all fields null, 3 three such entities (sorting compares null with null)
 	env := verifNewEnv(vStoreCfg{nickNullable: true})
 	defer env.close()
 	store := verifNewPersonStore()
 	if state >= 1 {
 		err := env.update(func(ctx MutateContext) error { return store.Create(ctx, &vPerson{Id: "a"}) })
 		verifrt.Assert(err == nil, "C10 setup create succeeds")
+	}
+	if state == 4 {
+		// ordinary data: two entities with values in every field
+		err := env.update(func(ctx MutateContext) error {
+			sv, iv, boss := "x", int64(1), "a"
+			if err := store.Create(ctx, &vPerson{Id: "ab", S: &sv, I: &iv, Roles: []string{"a"}, Tag: int64(1)}); err != nil {
+				return err
+			}
+			return store.Create(ctx, &vPerson{Id: "b", S: &sv, I: &iv, Boss: &boss, Roles: []string{"b"}, Tag: "v"})
+		})
+		verifrt.Assert(err == nil, "C10 setup creates succeed")
 	}
 	if state == 3 {
 		err := env.update(func(ctx MutateContext) error {
